@@ -1,7 +1,7 @@
 (* One entry point for the correspondence check: a request (an S-expression naming a stage and its input) is
    decoded, run through the model, and the observable encoded back.  Used extracted (driver/) and inside Coq. *)
 From Coq Require Import List String Ascii Bool NArith ZArith.
-From Yae Require Import Base.Sexp Model.Ty Gen.Generated Model.Unify Model.Lexer Model.Literal Model.Cst Model.Pratt Model.Desugar Model.Check Model.Num Model.Val Model.Render Model.Builtins Model.Eval Model.VM.
+From Yae Require Import Base.Sexp Model.Ty Gen.Generated Model.Unify Model.Lexer Model.Literal Model.Cst Model.Pratt Model.Desugar Model.Check Model.Num Model.Val Model.Render Model.Builtins Model.Eval Model.VM Model.Verifier.
 Import ListNotations.
 Open Scope string_scope.
 
@@ -254,10 +254,35 @@ Definition run_vm (lim : option nat) (args : list sexp) : sexp :=
 Definition enc_const (c : const) : sexp :=
   match c with
   | CVal v => L [A "val"; enc_val (canon_val sort_entries v)]
-  | CFun sg => L [A "fun"; eName (s_name sg)]
+  | CFun sg => L [A "fun"; eName (s_name sg); enat (List.length (s_params sg)); eB (s_lazy sg)]
   | CThunk code rt => L [A "thunk"; eNs code; enc_ty rt]
   | CType t => L [A "type"; enc_ty t]
   | CName n => L [A "name"; eName n]
+  end.
+
+Definition dec_const (s : sexp) : option const :=
+  match s with
+  | L (A tag :: args) =>
+      if tag =? "val" then match args with [v] => option_map CVal (dec_val v) | _ => None end
+      else if tag =? "fun" then
+        match args with
+        | [n; k; lz] => do n' <- dName n; do k' <- dnat k; do lz' <- dB lz;
+                        Some (CFun (mkSig n' (repeat TBot k') TBot lz'))   (* only arity and strategy matter to the verifier *)
+        | _ => None end
+      else if tag =? "thunk" then match args with [c; t] => do c' <- dNs c; do t' <- dec_ty t; Some (CThunk c' t') | _ => None end
+      else if tag =? "type" then match args with [t] => option_map CType (dec_ty t) | _ => None end
+      else if tag =? "name" then match args with [n] => option_map CName (dName n) | _ => None end
+      else None
+  | _ => None
+  end.
+
+(* (verify code pool): the extracted verifier run on the IMPLEMENTATION's emitted bytes *)
+Definition run_verify (args : list sexp) : sexp :=
+  match args with
+  | [c; L p] => match dNs c, mapM dec_const p with
+                | Some code, Some pool => eB (verify_all code pool)
+                | _, _ => bad end
+  | _ => bad
   end.
 
 Definition run_bytecode (args : list sexp) : sexp :=
@@ -300,6 +325,7 @@ Definition dispatch (req : sexp) : sexp :=
       else if tag =? "vmsrc" then run_vm None args
       else if tag =? "vmcsrc" then run_vm (Some vm_limit) args
       else if tag =? "bytecode" then run_bytecode args
+      else if tag =? "verify" then run_verify args
       else bad
   | _ => bad
   end.
